@@ -28,7 +28,7 @@ package config
 //@ func compileObservability
 //@   trusted
 //@ func compileQueueLimits
-//@   trusted
+//@   ensures [C12:a_compiled_depth_limit_is_never_negative_and_the_policy_is_one_of_the_two] len(result1.Errors) == 0 ==> result0.MaxDepth >= 0 && (result0.DropPolicy == "reject" || result0.DropPolicy == "drop_oldest")
 //@ func compileQueueRetention
 //@   trusted
 //@ func compileSecrets
@@ -55,9 +55,12 @@ package config
 //@   modifies ValidationResult.*
 //@   ensures res != nil ==> len(res.Errors) >= old(len(res.Errors))
 //@ func compileRateLimitConfig
-//@   trusted
+//@   requires res != nil
 //@   modifies ValidationResult.*
-//@   ensures res != nil ==> len(res.Errors) >= old(len(res.Errors))
+//@   ensures len(res.Errors) >= old(len(res.Errors))
+//@   ensures [C12:a_declared_rate_limit_is_switched_off_only_with_a_compile_error] in != nil && !result.Enabled ==> len(res.Errors) > old(len(res.Errors))
+//@   ensures [C12:an_enabled_rate_limit_has_a_positive_rate_and_burst] result.Enabled ==> in != nil && (nan(result.RPS) || result.RPS > 0.0) && result.Burst >= 1
+//@   ensures [C12:an_undeclared_rate_limit_is_off] in == nil ==> !result.Enabled
 //@ spec
 //@ pred retryShapeOK(r RetryConfig) := r.Max > 0 && r.Base > 0 && r.Base <= r.Cap && (nan(r.Jitter) || (r.Jitter >= 0 && r.Jitter <= 1))
 
@@ -70,7 +73,7 @@ package config
 //@   ensures [C06:rejected_retry_reports_an_error] !result1 ==> len(res.Errors) > old(len(res.Errors))
 //@ func resolveValue
 //@   trusted
-//@   modifies ValidationResult.*
+//@   modifies res.OK, res.Errors, res.Warnings
 //@   ensures res != nil ==> len(res.Errors) >= old(len(res.Errors))
 
 //@ func Compile
